@@ -59,6 +59,9 @@ fn replay_file(comp: &str, path: &Path, out: &mut Out) {
     }
 }
 
+#[global_allocator]
+static ALLOC: common::crumb::WatchAlloc = common::crumb::WatchAlloc;
+
 fn main() {
     let argv: Vec<String> = std::env::args().collect();
     if argv.len() < 2 {
@@ -123,6 +126,8 @@ fn main() {
             }
         }
     }
+    // aborts and hangs inside the library end the process with a CRASH-INPUT / HANG-INPUT line naming the request
+    common::crumb::install(&comp, if args.thorough() { 300 } else { 120 });
     // quiet panics: every case runs under catch_unwind where a panic is an outcome
     std::panic::set_hook(Box::new(|_| {}));
     let mut out = Out::new(&args.out);
